@@ -167,8 +167,10 @@ theorem copyStage_retained (s : State) (m : Meta) (hmd : s.md = some m)
       · cases hwr
       · split at hwr
         · cases hwr
-        · cases hwr
-          exact Fs.get_set_self _ _ _
+        · split at hwr
+          · cases hwr
+          · cases hwr
+            exact Fs.get_set_self _ _ _
   · cases hret
 
 theorem retained_means_written (s : State) (now : Nat) (m : Meta) (hmd : s.md = some m)
